@@ -595,7 +595,9 @@ func onePerm(e *permEnv, pc PermCase) (res permResult) {
 	if pc.Split != nil {
 		cls = "files"
 	}
-	keyOf := func(what string) string { return fmt.Sprintf("perm|%s|%s|%s|%s", pc.Dialect, pc.Mode, cls, what) }
+	// class-level key: dialect and what broke (the mode and the doc/files form are in the case)
+	keyOf := func(what string) string { return fmt.Sprintf("perm|%s|%s", pc.Dialect, what) }
+	res.detail["form"] = cls
 	bl := e.baseline(s, pc.Mode)
 	base := bl.p
 	perm := planFor(s, pc.Mode, s.permFiles(pc))
